@@ -263,6 +263,12 @@ namespace Dune
     const bool showbase = (s.flags() & std::ios_base::showbase) != 0;
     s.unsetf(std::ios_base::showbase);
 
+    // ... and a field width applies to the number as a whole, not to its first hex digit
+    const std::streamsize padding = s.width(0) - n*hexdigits;
+    const bool left = (s.flags() & std::ios_base::adjustfield) == std::ios_base::left;
+    if (!left)
+      for (std::streamsize i=0; i<padding; i++) s << s.fill();
+
     // print from left to right
     for (int i=n-1; i>=0; i--)
       for (int d=hexdigits-1; d>=0; d--)
@@ -278,6 +284,8 @@ namespace Dune
         else if (!leading) s << std::hex << current;
       }
     if (leading) s << "0";
+    if (left)
+      for (std::streamsize i=0; i<padding; i++) s << s.fill();
     s << std::dec;
     if (showbase) s.setf(std::ios_base::showbase);
   }
